@@ -354,12 +354,19 @@ func genRowLine(r *h.Rand, odd bool, big bool) genRow {
 	}
 	typ := h.Pick(r, []byte{'f', 'f', 'i', 'i', 'u', 's', 'b'})
 	cond := "-"
+	if big {
+		// > MaxPointsPerBlock matching points: the filter cursor's carry-over (tmp)
+		typ = h.Pick(r, []byte{'f', 'i'})
+	}
 	if ((typ == 'f' || typ == 'i') && r.Chance(0.35)) || r.Chance(0.04) {
 		lit := rmock.FloatTok(float64(r.Range(-6, 6)) / 2)
 		if r.Bool() {
 			lit = rmock.IntTok(r.Range(-5, 5))
 		}
 		cond = h.Pick(r, []string{"eq", "ne", "lt", "le", "gt", "ge"}) + ":" + lit
+	}
+	if big && r.Chance(0.8) {
+		cond = h.Pick(r, []string{"ge:i-100", "ne:f4059000000000000", "lt:i50", "ge:i-3"})
 	}
 	nsh := 1 + r.Intn(4)
 	t := r.Range(-30, 30)
